@@ -118,6 +118,8 @@ class C04(HistoryProp):
                 g = ('f', name, tuple(('v', 'Q%d' % i) if src.n(3) else src.pick(CONSTS + [('f', 'f', (src.pick(CONSTS),))]) for i in range(n))) if n else ('a', name)
                 if ngfacts[e] and src.n(2):
                     g = inst(src, src.pick(ngfacts[e]))       # an instance of a stored non-ground fact
+                if n and src.n(5) == 0:
+                    g = ('f', 'retract', (g,))                # a retract that stays suspended between its answers
                 ops.append(['open', e, qid, g])
                 open_q.append((qid, e))
             elif k in (10, 11, 12) and open_q:
@@ -201,12 +203,58 @@ class C04(HistoryProp):
             classes.add('same-script-loaded-twice')
         return both and len([e for e, n in mut.items() if n >= 1]) >= 2, classes
 
+    # ------------------------------------------------------------------ one thread per engine, harness-owned schedule
+    def lockstep_checks(self, tier, seed):
+        """the histories of the main search, but every engine is driven by a thread of its own; one operation at a time
+        in history order (the harness owns the schedule, so the run is deterministic).  Observations must equal the
+        reference's; an operation that only finishes once another engine's suspended query is closed is a violation."""
+        from ..gen import Src
+        import hashlib
+        runs = 60 if tier == 'quick' else 1500
+        out = []
+        for r in range(runs):
+            data = hashlib.sha256(('%d/%d/lockstep' % (seed, r)).encode()).digest() * 20
+            src = Src(data)
+            if r % 3 == 0:
+                # directed: a retract of one engine suspended after an answer while the others assert and retract
+                ops = [['engine', e] for e in ENG[:2]]
+                for e in ENG[:2]:
+                    for _ in range(2 + src.n(2)):
+                        ops.append(['assert', e, gfact(src, ('p', 1)), True])
+                a, b = (ENG[0], ENG[1]) if src.n(2) else (ENG[1], ENG[0])
+                ops.append(['open', a, 1, ('f', 'retract', (('f', 'p', (('v', 'Q0'),)),))])
+                ops.append(['step', 1])
+                for _ in range(1 + src.n(3)):
+                    k = src.n(4)
+                    if k == 0:
+                        ops.append(['assert', b, gfact(src, ('p', 1)), bool(src.n(2))])
+                    elif k == 1:
+                        ops.append(['run', b, ('f', src.pick(['assertz', 'asserta']), (gfact(src, ('p', 1)),)), 3])
+                    elif k == 2:
+                        ops.append(['run', b, ('f', 'retract', (('f', 'p', (('v', 'A0'),)),)), 3])
+                    else:
+                        ops.append(['open', b, 2, ('f', 'retract', (('f', 'p', (('v', 'B0'),)),))])
+                        ops.append(['step', 2])
+                ops.append(['step', 1])
+                ops.append(['db', a])
+                ops.append(['db', b])
+                case = {'ops': ops, 'lockstep_threads': True}
+            else:
+                case = dict(self.decode(src), lockstep_threads=True)
+            o = self.decide(case)
+            if r % 3 == 0 and o.status == 'ok':
+                o = OK(True, list(o.classes) + ['lockstep-threads:directed-suspended-retract'])
+            out.append((case, o))
+            if o.status == 'fail':
+                break
+        return out
+
     # ------------------------------------------------------------------ threads (secondary, sampled)
     def extra_checks(self, tier, seed):
         from ..gen import Src
         import hashlib
         runs = 12 if tier == 'quick' else 200
-        out = []
+        out = self.lockstep_checks(tier, seed)
         for r in range(runs):
             data = hashlib.sha256(('%d/%d/threads' % (seed, r)).encode()).digest() * 20
             src = Src(data)
